@@ -280,6 +280,28 @@ def cases(ctx, tier):
             else: N = limbs_value(rng, 2 * n)
             N %= Bn * Bn
             out.append(('mpn_dc_div_qr_n %x %s %s' % (n, hx(N), hx(d)), 'dc_div_qr_n-direct'))
+    # mpn_sb_div_qr called directly against the schoolbook model (C02_sb_div_qr): top limbs equal to the divisor's (q = B-1 branch),
+    # divisors <2^63, 0, ..., B-1> (estimate one too large: the add-back), nn = dn, long quotients
+    for dn in (list(range(3, 14)) + [20, 31] if quick else list(range(3, 60))):
+        for rep in range(8 if quick else 20):
+            Bd = 1 << (64 * dn)
+            k = rng.random()
+            if k < 0.3: d = (1 << (64 * dn - 1)) | ((1 << (64 * rng.randrange(1, dn))) - 1)
+            elif k < 0.5: d = Bd - 1 - rng.getrandbits(rng.choice([1, 64, 64 * (dn - 1)]))
+            else: d = nonzero_top(rng, dn, rng.choice(['uniform', 'runs', 'ones'])) | (1 << (64 * dn - 1))
+            nn = dn + rng.choice([0, 1, 1, 2, 3, dn, 2 * dn])
+            k = rng.random()
+            if k < 0.3:      # top limbs of the running remainder equal the divisor's two top limbs
+                top2 = d >> (64 * (dn - 2))
+                N = (top2 << (64 * (nn - 2))) | rng.getrandbits(64 * (nn - 2))
+                if rng.random() < 0.5: N -= 1 << (64 * (nn - 2) - 1)
+            elif k < 0.5:
+                q = rng.getrandbits(64 * (nn - dn)) if nn > dn else 0
+                N = q * d + rng.choice([0, d - 1, rng.randrange(d)])
+            elif k < 0.6: N = (1 << (64 * nn)) - 1 - rng.getrandbits(rng.choice([1, 64]))
+            else: N = limbs_value(rng, nn)
+            N = max(0, N) % (1 << (64 * nn))
+            out.append(('mpn_sb_div_qr %x %s %x %s' % (nn, hx(N), dn, hx(d)), 'sb_div_qr-direct'))
     return out
 
 def big_cases(ctx, tier):
